@@ -156,6 +156,10 @@ def fork_stream(fn, timeout):
             # whatever the code under test prints (Scheme's `display`, warnings) must not reach the check's stdout,
             # where only the parent writes VIOLATION / KNOWN-FINDING lines
             sys.stdout = open(os.devnull, 'w')
+            try:
+                os.dup2(sys.stdout.fileno(), 1)      # also for code that writes to file descriptor 1 directly
+            except OSError:
+                pass
             fn(lambda obj: send(w, obj))
         except BaseException:
             code = 3
